@@ -112,3 +112,63 @@ theorem decodeRow_empty_counts (T : Tables) (wf : WFRSS T) (rn : Int) (row : Lis
   exact addOrTally_nil lp (fun q hq => decodePair_count o T row false rn cb q (by rw [hlp, hq]))
 end
 end Gzx.Proofs.RSS14Total
+
+namespace Gzx.Proofs.RSS14Total
+open Gzx Gzx.Det Gzx.RSS14
+
+theorem tally_values {v : Int} : ∀ {ps ps' : List Pair}, tally v ps = some ps' → ps'.map (·.value) = ps.map (·.value)
+  | [], _, h => by simp [tally] at h
+  | p :: ps, ps', h => by
+    unfold tally at h
+    split at h
+    · cases h; rfl
+    · cases ht : tally v ps with
+      | none => rw [ht] at h; simp at h
+      | some r =>
+        rw [ht] at h
+        simp only [Option.map_some, Option.some.injEq] at h
+        subst h
+        simp [tally_values ht]
+
+theorem tally_none {v : Int} : ∀ {ps : List Pair}, tally v ps = none → v ∉ ps.map (·.value)
+  | [], _ => by simp
+  | p :: ps, h => by
+    unfold tally at h
+    split at h
+    · cases h
+    · rename_i hne
+      cases ht : tally v ps with
+      | some r => rw [ht] at h; simp at h
+      | none =>
+        have := tally_none ht
+        simp only [List.map_cons, List.mem_cons, not_or]
+        exact ⟨fun e => hne e.symm, this⟩
+
+/-- `addOrTally` keeps the remembered values pairwise distinct and adds at most one pair -/
+theorem addOrTally_nodup {ps : List Pair} (hn : (ps.map (·.value)).Nodup) (p : Option Pair) :
+    ((addOrTally ps p).map (·.value)).Nodup ∧ (addOrTally ps p).length ≤ ps.length + 1 := by
+  unfold addOrTally
+  cases p with
+  | none => exact ⟨hn, Nat.le_succ _⟩
+  | some q =>
+    simp only []
+    cases ht : tally q.value ps with
+    | some r =>
+      have hv := tally_values ht
+      refine ⟨by rw [hv]; exact hn, ?_⟩
+      have : r.length = ps.length := by
+        have := congrArg List.length hv
+        simpa using this
+      show r.length ≤ ps.length + 1
+      omega
+    | none =>
+      have hnot := tally_none ht
+      refine ⟨?_, by simp⟩
+      rw [List.map_append, List.nodup_append]
+      refine ⟨hn, by simp, ?_⟩
+      intro a ha b hb
+      simp only [List.map_cons, List.map_nil, List.mem_singleton] at hb
+      subst hb
+      intro e; subst e; exact hnot ha
+
+end Gzx.Proofs.RSS14Total
